@@ -115,6 +115,19 @@ def resync (st : St) (impl : String) (modelIt : It) : St :=
     | none => { st with it := modelIt, live := false }
   | _ => { st with it := modelIt, live := false }
 
+/-- a call outside the spec's domain (target namespace outside the table) that still moved the iterator:
+put the cursor on the id that was reported -/
+def resyncCursor (st : St) (impl : String) (it : It) : St :=
+  match words impl with
+  | ["true", w] =>
+    match (parseKey w).bind (fun k => match st.tbl.encodeKey k with | .ok id => some id | .error _ => none) with
+    | some id =>
+      match cursorAt st.cursor.xs (keyNat id) with
+      | some c => { st with it := it, cursor := c }
+      | none => { st with it := it, live := false }
+    | none => { st with it := it, live := false }
+  | _ => { st with it := it, live := false }
+
 def firstDiff : List UInt8 → List UInt8 → Nat → Nat
   | a :: as, b :: bs, n => if a = b then firstDiff as bs (n + 1) else n
   | _, _, n => n
@@ -133,7 +146,7 @@ def stepCall (st : St) (impl : String) (model : Except Err (Bool × It)) (spec :
     if agree then
       match model, spec with
       | .ok (true, it), some (_, c) => { st with it := it, cursor := c }
-      | .ok (true, it), none => { st with it := it }
+      | .ok (true, it), none => resyncCursor st impl it
       | .ok (false, it), _ => { st with it := it, live := false }
       | .error _, _ => { st with live := false }
     else resync st impl modelIt
